@@ -286,7 +286,7 @@ def add_overpressure(p: dict, rng: random.Random):
     p.pop('Reservoir Impedance', None)
     p.setdefault('Productivity Index', fmt(rng.uniform(3, 20)))
     p.setdefault('Injectivity Index', fmt(rng.uniform(3, 20)))
-    p['Overpressure Percentage'] = fmt(rng.uniform(100, 300))
+    p['Overpressure Percentage'] = 100 if rng.random() < 0.2 else fmt(rng.uniform(100, 300))     # exactly 100 % is in scope (no excess, still two reservoirs)
     p['Overpressure Depletion Rate'] = fmt(rng.uniform(0.5, 15))
     p['Injection Reservoir Depth'] = fmt(rng.uniform(500, 3000))
     p['Injection Reservoir Inflation Rate'] = fmt(rng.uniform(0, 200))
